@@ -25,7 +25,6 @@ import (
 
 	"github.com/goblimey/go-ntrip/jsonconfig"
 	rtcmh "github.com/goblimey/go-ntrip/rtcm/handler"
-	"github.com/goblimey/go-ntrip/rtcm/pushback"
 )
 
 var t0 = time.Date(2023, 5, 10, 12, 0, 0, 0, time.UTC)
@@ -54,32 +53,25 @@ type obsT struct {
 // expected computes, by sequential framing with the implementation itself,
 // the valid frames (concatenated) and the readable log of a stream.
 func expected(stream []byte) (frames []byte, readable string, n int, fault string) {
-	ch := make(chan byte, len(stream)+1)
-	for _, b := range stream {
-		ch <- b
-	}
-	close(ch)
+	// segmentation by the independent reference (ref.Segment; C03 ties the
+	// implementation's framing to it), each segment displayed by the library
 	h := rtcmh.New(t0, slog.LevelDebug)
-	pb := pushback.New(ch)
 	defer func() {
 		if p := recover(); p != nil {
-			fault = fmt.Sprint("sequential framing panicked: ", p)
+			fault = fmt.Sprint("display of the sequential framing panicked: ", p)
 		}
 	}()
-	for i := 0; i <= len(stream)+2; i++ {
-		m, err := h.FetchNextMessageFrame(pb)
-		if err != nil && err.Error() == "done" {
-			frames = expectedFrames(stream)
-			return
-		}
-		if m == nil {
-			fault = "nil message"
-			return
+	for _, sg := range ref.Segment(stream) {
+		var m *rtcmh.Message
+		if sg.Type >= 0 {
+			m, _ = h.GetMessage(sg.Raw)
+		} else {
+			m = rtcmh.NewNonRTCM(sg.Raw)
 		}
 		n++
 		readable += fmt.Sprintf("%s\n", m.String())
 	}
-	fault = "no progress"
+	frames = expectedFrames(stream)
 	return
 }
 
